@@ -7,6 +7,26 @@ _A_NOTE = ('Trusted: CrossHair 0.0.110 proxy semantics and path pruning, z3 5.1.
            'before a VIOLATION is printed.')
 
 CLAIMS = {
+    'C19': dict(
+        engine='B-direct-smt',
+        category='model_checking',
+        technique='bounded model checking with a symbolic schedule (z3) of micro-operation programs compiled from the current source by ast; counterexample schedules replayed on real threads',
+        text=('The functions that touch module-level state (build guard, tracking flag, suspend_tracking / set_tracking / '
+              'tracking_enabled, History.add_new_value / new_value with the sequence counter, get_signature with its '
+              'cache) are compiled from the working tree into micro-operations with one shared-memory access each; '
+              'whether a location is per-thread is read from the class bases (threading.local), whether the counter '
+              'increment is atomic from its initialiser (itertools.count). For each of 14 pairs (thorough: also 8 '
+              'triples and longer pairs) of the thread programs {build with a slow body; build whose callable '
+              'attempts a nested build; two edits; edit inside suspend_tracking then edit; nested suspension; '
+              'set_tracking off / on around edits; first-time signature lookups of the same or of different '
+              'callables; edits around a lookup}, for EVERY interleaving at source-line granularity of the shared '
+              'accesses (complete schedules, K = number of shared accesses): every thread ends with exactly the '
+              'observations of its alone-run (no spurious build error, nested build rejected, same number of history '
+              'entries, tracking flag restored, signature of the requested callable), sequence ids strictly '
+              'increase within each thread and are unique across threads. The single-thread model of every program '
+              'is validated against a sequential run of the real code, a twin with the state declared shared must be '
+              'satisfiable, and a satisfying schedule is replayed on real threads (line-gated) before it is reported.'),
+        note='Trusted: z3 5.1.0; the ast-to-micro-operation compiler (engines/b3.py; constructs outside its subset make the obligation inconclusive, never pass); CPython\'s GIL atomicity of single dict operations and of next() on itertools.count. Code the threads run outside these functions is assumed to touch only thread-private objects; the run lists every module-level mutable name of fiddle/_src and requires each to be classified (an unclassified name makes the inventory inconclusive).'),
     'C11': dict(
         engine='A-crosshair',
         technique='bounded symbolic execution of the real code (CrossHair + z3) over a generated program family; program arguments unbounded symbolic',
